@@ -184,6 +184,84 @@ func init() {
 		exec: func(w *World, st *Step) {}})
 }
 
+func init() {
+	// erode: nibble at the edges of the runs of one run-encoded chunk with point removals
+	// (and a few point additions that extend or bridge runs), so that the chunk's
+	// cheapest representation changes without any run being split
+	reg(&opDef{name: "erode", tag: "C02",
+		gen: func(w *World, r *Rng) (Step, bool) {
+			b := w.nonEmptySlot(r)
+			o := w.B[b]
+			var key uint16
+			found := false
+			func() {
+				defer func() { recover() }()
+				var cands []uint16
+				for _, c := range o.BM.VerifChunks() {
+					if c.Kind == 2 && c.Runs >= 6 {
+						cands = append(cands, c.Key)
+					}
+				}
+				if len(cands) > 0 {
+					key, found = cands[r.Intn(len(cands))], true
+				}
+			}()
+			if !found {
+				// make one: many short runs, run-optimised
+				k := w.key(r)
+				w.pending = append(w.pending, Step{Op: "runopt", S: []int{b}})
+				return Step{Op: "addmany", S: []int{b}, A: []uint64{uint64(k), 6, uint64(24 + r.Intn(300)), r.U64()}}, true
+			}
+			words := o.M.ChunkWords(key)
+			if words == nil {
+				return Step{}, false
+			}
+			has := func(i int) bool { return i >= 0 && i < 65536 && words[i>>6]&(1<<(uint(i)&63)) != 0 }
+			base := uint64(key) << 16
+			var steps []Step
+			variant := uint64(r.Intn(2))
+			for i := 0; i < 65536 && len(steps) < 160; i++ {
+				if !has(i) {
+					continue
+				}
+				// i starts a run; find its end
+				j := i
+				for has(j + 1) {
+					j++
+				}
+				switch {
+				case j > i && j-i <= 6 && r.Chance(3, 4): // wear a short run down to one value, always from an end
+					lo, hi := i, j
+					for hi > lo && len(steps) < 160 {
+						if r.Bool() {
+							steps = append(steps, Step{Op: "remove", S: []int{b}, A: []uint64{base + uint64(hi), variant}})
+							hi--
+						} else {
+							steps = append(steps, Step{Op: "remove", S: []int{b}, A: []uint64{base + uint64(lo), variant}})
+							lo++
+						}
+					}
+				case j > i && r.Chance(1, 2): // shrink from one end, the run survives
+					if r.Bool() {
+						steps = append(steps, Step{Op: "remove", S: []int{b}, A: []uint64{base + uint64(j), variant}})
+					} else {
+						steps = append(steps, Step{Op: "remove", S: []int{b}, A: []uint64{base + uint64(i), variant}})
+					}
+				case r.Chance(1, 6) && j+1 < 65536: // extend
+					steps = append(steps, Step{Op: "add", S: []int{b}, A: []uint64{base + uint64(j+1), uint64(r.Intn(3))}})
+				}
+				i = j + 1
+			}
+			if len(steps) == 0 {
+				return Step{}, false
+			}
+			w.pending = append(w.pending, steps[1:]...)
+			w.probe("erode-scenario")
+			return steps[0], true
+		},
+		exec: func(w *World, st *Step) {}})
+}
+
 func itoa(n int) string {
 	if n == 0 {
 		return "0"
